@@ -88,6 +88,37 @@ theorem afterJoinW_sEnd (c : Cfg) (n : Nat) (h : afterJoinW c n = .sEnd) : c.wor
   unfold afterJoinW at h; split at h
   · cases h
   · omega
+/-! ### none of the helper program counters is `wStopping` / `exited` (except `dispatchPc STOP`) -/
+theorem ne_exit_markChain (c : Cfg) (n : Nat) : markChain c n ≠ .wStopping ∧ markChain c n ≠ .exited := by
+  rcases markChain_cases c n with h | h | ⟨m, h⟩ <;> simp [h]
+theorem ne_exit_afterStore (c : Cfg) : afterStore c ≠ .wStopping ∧ afterStore c ≠ .exited := by
+  unfold afterStore; split
+  · simp
+  · exact ne_exit_markChain c _
+theorem ne_exit_cont (c : Cfg) (x : Option Item) (k : Pc) (h : ContOK c x k) : k ≠ .wStopping ∧ k ≠ .exited := by
+  cases k <;> first
+    | (simp; done)
+    | (obtain ⟨_, n, hn⟩ := h; rw [hn]; exact ne_exit_markChain c n)
+theorem ne_exit_onEmpty (ctx : PopCtx) : ctx.onEmpty ≠ .wStopping ∧ ctx.onEmpty ≠ .exited := by
+  cases ctx <;> simp [PopCtx.onEmpty]
+theorem ne_exit_afterSubmit (c : Cfg) (b : Bool) (id cid : Nat) :
+    afterSubmit c b id cid ≠ .wStopping ∧ afterSubmit c b id cid ≠ .exited := by
+  unfold afterSubmit; split <;> simp
+theorem ne_exit_afterSize (c : Cfg) (p a id cid : Nat) :
+    afterSize c p a id cid ≠ .wStopping ∧ afterSize c p a id cid ≠ .exited := by
+  unfold afterSize; split <;> simp
+theorem ne_exit_afterLdRunS (v : Bool) : afterLdRunS v ≠ .wStopping ∧ afterLdRunS v ≠ .exited := by
+  cases v <;> simp [afterLdRunS]
+theorem ne_exit_afterLdRunB (v : Bool) : afterLdRunB v ≠ .wStopping ∧ afterLdRunB v ≠ .exited := by
+  cases v <;> simp [afterLdRunB]
+theorem ne_exit_afterJoinW (c : Cfg) (n : Nat) : afterJoinW c n ≠ .wStopping ∧ afterJoinW c n ≠ .exited := by
+  unfold afterJoinW; split <;> simp
+theorem noteMarker_some (fm : Option Nat) (p j0 : Nat) (h : noteMarker fm p = some j0) :
+    (fm = none ∧ j0 = p) ∨ fm = some j0 := by
+  cases fm <;> simp_all [noteMarker]
+theorem noteMarker_ne_none (fm : Option Nat) (p : Nat) : noteMarker fm p ≠ none := by
+  cases fm <;> simp [noteMarker]
+
 theorem mem_getElem? (l : List Nat) (u : Nat) (h : u ∈ l) : ∃ m, m < l.length ∧ l[m]? = some u := by
   obtain ⟨m, hm, he⟩ := List.mem_iff_getElem.mp h
   exact ⟨m, hm, by simp [hm, he]⟩
